@@ -13,7 +13,7 @@ def rpc_histories(c):
   from vcheck import deploy
   n = 25 if c.tier == 'quick' else 300
   backends = ['ram'] if c.tier == 'quick' else ['ram', 'sqlmem']
-  hists = svcgen.matrix()      # every RPC on every trial / study state, directed
+  hists = svcgen.matrix() + svccheck.load_corpus()[::2]     # every RPC on every trial / study state (directed) + minimised past failures
   for i in range(n):
     g = svcgen.Gen(c.rng, owners=('o',), sids=('s',) if i % 3 else ('s', 't'), fail_rate=0.25)
     hists.append(g.history(c.rng.randrange(4, 20)))
